@@ -18,7 +18,8 @@ type gthread struct {
 	wake  chan struct{}
 	done  bool
 	ready func() bool // nil = runnable
-	vc    []int       // vector clock (race detector)
+	vc    []int       // vector clock (race detector): fork/join, channels, once, atomics, pool hand-off
+	locks map[*value]bool // mutexes currently held (lockset)
 }
 
 type killSignal struct{}
@@ -182,17 +183,35 @@ func spawnGoroutine(fr *frame, instr *ssa.Go, fn value, args []value) {
 				s.killNext()
 				return
 			}
-			if s.abort != nil {
+			toMain := func() bool {
 				// hand the baton to main so that it can re-raise
 				m := s.threads[0]
 				if !m.done {
 					m.ready = nil
 					s.cur = m
 					m.wake <- struct{}{}
-					return
+					return true
 				}
+				return false
 			}
-			s.dispatch(t)
+			if s.abort != nil && toMain() {
+				return
+			}
+			// choosing the next thread may itself end the path (budget, infeasible choice)
+			func() {
+				defer func() {
+					if r := recover(); r != nil {
+						if _, isKill := r.(killSignal); isKill {
+							return
+						}
+						if s.abort == nil {
+							s.abort = r
+						}
+						toMain()
+					}
+				}()
+				s.dispatch(t)
+			}()
 		}()
 		if s.killed {
 			panic(killSignal{})
@@ -256,6 +275,44 @@ func syncFor(key interface{}) *syncObj {
 func acquire(key interface{}) {
 	t := sched.cur
 	vcJoin(&t.vc, syncFor(key).vc)
+}
+
+// Mutexes do not contribute happens-before edges in the detector: which thread gets a lock first
+// depends on the schedule, and an ordering that exists only in the explored schedule would hide
+// races that another schedule exposes.  Instead each access remembers the locks held (lockset);
+// two accesses race if they are unordered by the hard edges and hold no common lock.
+func acquireLock(p *value) {
+	t := sched.cur
+	if t.locks == nil {
+		t.locks = map[*value]bool{}
+	}
+	t.locks[p] = true
+}
+
+func releaseLock(p *value) {
+	t := sched.cur
+	delete(t.locks, p)
+}
+
+func heldLocks() []*value {
+	t := sched.cur
+	if len(t.locks) == 0 {
+		return nil
+	}
+	out := make([]*value, 0, len(t.locks))
+	for p := range t.locks {
+		out = append(out, p)
+	}
+	return out
+}
+
+func commonLock(a []*value, held map[*value]bool) bool {
+	for _, p := range a {
+		if held[p] {
+			return true
+		}
+	}
+	return false
 }
 
 func release(key interface{}) {
